@@ -112,6 +112,15 @@ let () =
          | COk e -> Printf.printf "%s R=ok:%s\n" id (show_expr e)
          | CScanErr e -> Printf.printf "%s R=err:%s\n" id (show_serr e)
          | CParseErr e -> Printf.printf "%s R=err:%s\n" id (show_perr e))
+    | L (A "rtext" :: A id :: L (A "exp" :: _) :: cs) ->
+        (match compile0 (cp_list cs) with
+         | COk e -> Printf.printf "%s R=ok:%s\n" id (show_expr e)
+         | CScanErr e -> Printf.printf "%s R=err:%s\n" id (show_serr e)
+         | CParseErr e -> Printf.printf "%s R=err:%s\n" id (show_perr e))
+    | L (A "stext" :: A id :: L (A "exp" :: _) :: cs) | L [A "lay"; A id; L (A "a" :: cs); L (A "b" :: _)] ->
+        (match scan_raw (cp_list cs) with
+         | Ok0 ts -> Printf.printf "%s R=ok:%s\n" id (String.concat " " (List.map (fun t -> show_ptok (conv_tok t)) ts))
+         | Er0 e -> Printf.printf "%s R=err:%s\n" id (show_serr e))
     | L (A "scan" :: A id :: cs) ->
         (match scan_raw (cp_list cs) with
          | Ok0 ts -> Printf.printf "%s R=ok:%s\n" id (String.concat " " (List.map (fun t -> show_ptok (conv_tok t)) ts))
@@ -143,6 +152,19 @@ let () =
           so out ^ "|" ^ String.concat "," (List.map so vs) ^ "|" ^ String.concat "," (List.map so fs) ^ "|" ^
           String.concat "," (List.sort compare (List.map (fun (d, t) -> show_str d ^ "#" ^ string_of_int (int_of_n t)) lst)) in
         Printf.printf "%s %s\n" id (String.concat " ; " (List.map line res))
+    | L [A "uniclass"; A id; A lo; A hi] ->
+        let lo = int_of_string lo and hi = int_of_string hi in
+        let ranges p =
+          let out = Buffer.create 1024 and start = ref (-1) and first = ref true in
+          let emit a b = (if not !first then Buffer.add_char out ','); first := false; Buffer.add_string out (Printf.sprintf "%d-%d" a b) in
+          for c = lo to hi do
+            let v = p (n_of_int c) in
+            if v && !start < 0 then start := c
+            else if (not v) && !start >= 0 then begin emit !start (c - 1); start := -1 end
+          done;
+          if !start >= 0 then emit !start hi;
+          Buffer.contents out in
+        Printf.printf "%s R=A:%s;N:%s\n" id (ranges u_alpha) (ranges u_num)
     | L (A k :: A id :: _) -> Printf.printf "%s NOMODEL:%s\n" id k
     | _ -> failwith "case"
   done with End_of_file -> ()
